@@ -263,6 +263,8 @@ def run(ctx):
            '' if not dbreads else '_delete_ reads a link from _dbvals_ (the value last seen in the database): links made or changed in this session are missed',
            node=dbreads[0].ast if dbreads else None)
     ctx.floor('C15-LINKS', nlinks, 1, 'guarded reads of the deleted object\'s links')
+    from . import C26 as _C26
+    _C26.ddl_rules(ctx, 'C15-DDL', which=('ondelete',))
 
 
 MUTANTS = [
